@@ -667,7 +667,9 @@ SUBCHECKS = {"tree": x_tree, "run": x_run, "subprocess": x_subprocess, "discover
 # (U+2028 and form feed are line breaks to str.splitlines() but not to a bytes-wise readlines(); they are
 # neither leading nor trailing here)
 ID_POOL = ["mod.T.test_\u2028param", "mod.T.test\x0cff", "a", "b", "c", "d", "mod.T.test_x", "mod.T.test_x (slow)", "mod.T.test y[big endian]",
-           "é.test", "z z", "B", "a.b", "a b"]
+           "é.test", "z z", "B", "a.b", "a b",
+           # ids competing on characters that sort before "." (a dash in a module name, a scenario in brackets)
+           "pkg.test.T.x", "pkg.test-io.T.x", "mod.T.test_x(v1.2)", "mod.T.test_x(v1-rc)", "mod.T.test_x(v1)", "a-b", "a!b"]
 
 
 def enum_trees(max_nodes):
@@ -740,8 +742,16 @@ def run(ctx):
                 # test_ids handed over as another kind of container; a case with a filter_by_ids of its own
                 how = ["frozenset", "list", "tuple", "dict", "contains_only", "set_subclass"][n % 6]
                 ctx.execute("tree", {"tree": tree, "keep": keep, "ids_as": how, "own_filter": L[:1] if n % 2 else L[-1:]})
+    for shape in enum_trees(4):
+        if not ctx.mine():
+            continue
+        # ids that compete on characters sorting before ".": the order is that of the id STRINGS
+        tree = assign_ids(shape, iter(["pkg.test.T.x", "pkg.test-io.T.x", "a.b", "a-b", "a!b"]))
+        if len(leaves(tree)) >= 2:
+            n += 1
+            ctx.execute("tree", {"tree": tree, "keep": leaves(tree)})
     ctx.note_space("every tree shape with <= %d nodes over {plain, custom, custom+sort_tests} x 4 id "
-                   "subsets" % (4 if ctx.quick else 5), n)
+                   "subsets (and once more with ids competing on characters that sort before '.')" % (4 if ctx.quick else 5), n)
     ctx.notes["random_cases"] = True
     for i in range(ctx.scale(5000, 300000)):
         if ctx.out_of_time():
